@@ -54,6 +54,18 @@ Theorem c17_take_success_cached : forall TS (tstep : TS -> op -> TS * fired) k v
 Proof. exact @take_fetches_once_and_caches. Qed.
 Print Assumptions c17_take_success_cached.
 
+(* Take runs the fetch function exactly when the key is not stored -- once, never for a stored key: the cache
+   user (rpc/internal/auth validate) pays one store lookup per uncached app, shared by overlapping callers
+   through the single-flight barrier (C18), none for a cached one. *)
+Theorem c17_take_fetches_iff_absent : forall TS (tstep : TS -> op -> TS * fired) k f j c,
+  snd (ctake tstep k f j c) = match alookup Nat.eqb k (c_data c) with None => true | Some _ => false end.
+Proof.
+  intros. destruct (alookup Nat.eqb k (c_data c)) as [v|] eqn:E.
+  - rewrite (take_cached tstep k f j c v E). reflexivity.
+  - destruct f as [v|]; [rewrite (take_fetches_once_and_caches tstep k v j c E) | rewrite (take_error_not_cached tstep k j c E)]; reflexivity.
+Qed.
+Print Assumptions c17_take_fetches_iff_absent.
+
 (* ---- expiry: history-level statements on the cache running on the C10 wheel model ----
    `wnew_at I e lim` is the cache on a 300-slot wheel with interval I (NewCache: I = one second); `valid_cop I`
    restricts the jittered delay j of every Set/SetWithExpire/Take to at least one interval (the scope of the
